@@ -12,7 +12,7 @@ From Coq Require Import Permutation.
 From Agdb Require Import Bytes BytesProofs Utf8 Codec DbValue ValueIndex Graph DbModel Records RecordsProofs Storage StorageSpec
   StorageLayout StorageWp StorageRefine StorageProofs Collections CollValues CollWp CollBytes CollVecBase CollVecOps CollVec
   CollVec2 CollElems CollSep CollMap CollMapHist CollGraph CollValuesProofs StoredDb StoredDbRep StoredDbRun StoredDbLoad StoredDbProofs
-  Search Queries Revisions.
+  Search Queries Revisions OpenMap OpenMapProofs OpenMapRefineBase OpenMapRefineStep StoredDbProbe.
 From Coq Require Import ZifyBool ZifyNat ZifyN.
 Open Scope N_scope.
 
@@ -206,6 +206,21 @@ Proof.
     split; [split; reflexivity|]. split; [split; [discriminate|split; [reflexivity|sx_vrep sx_kv]]|].
     split; [split; reflexivity|]. split; [split; [discriminate|split; [reflexivity|sx_vrep sx_kv]]|exact I].
   - apply sx_nodup. reflexivity.
+Qed.
+
+(* ---------------- the alias tables of the example satisfy C19's invariant (for hashes that send "root" to slot 1 and
+   id 1 to slot 0, minimum capacity 2): the code's probing lookups return the model's lookups ---------------- *)
+Lemma sx_probe :
+  (forall a, value bytes Z bytes_eqb (fun _ => 1) (ct_omap bytes Z sx_t1) a = Done (imap_value (aliases sx_db) a)) /\
+  (forall i, value Z bytes Z.eqb (fun _ => 0) (ct_omap Z bytes sx_t2) i = Done (imap_key (aliases sx_db) i)).
+Proof.
+  apply (sd_alias_lookups_by_probing (fun _ => 1) (fun _ => 0) 2 om_fixed sx_g 1 sx_db sx_wit eq_refl sx_stored).
+  - split; [split; [reflexivity|right; cbn; lia]|].
+    intros i k v Hi Hn j Hj Hd. cbn in Hi, Hj. destruct i as [|[|i]]; [discriminate Hn| |lia].
+    vm_compute in Hd. destruct j as [|[|j]]; vm_compute in Hd; lia.
+  - split; [split; [reflexivity|right; cbn; lia]|].
+    intros i k v Hi Hn j Hj Hd. cbn in Hi, Hj. destruct i as [|[|i]]; [|discriminate Hn|lia].
+    destruct j as [|[|j]]; vm_compute in Hd; lia.
 Qed.
 
 (* ---------------- the example, assembled ---------------- *)
